@@ -149,3 +149,17 @@ func c12SearchDriver(s *propSpec, b *build, a *agg) {
 		a.harness = append(a.harness, fmt.Sprintf("the uninstrumented build disagrees with the instrumented reference on %v but the seeded search reproduced nothing: either the instrumentation changes behaviour or there is nondeterminism outside the simulator's seams", suspects))
 	}
 }
+
+// makeRefRaw runs a worker in -mode ref and returns the "extra" payload of its
+// ref record as raw JSON (used by C13, whose table has another shape than C12's).
+func makeRefRaw(bin string, race bool, b *build, s *propSpec) ([]byte, string) {
+	args := append(baseArgs(s, b), "-mode", "ref")
+	res := runWorker(workerJob{bin: bin, race: race, procs: 1, args: args, timeout: 20 * time.Minute})
+	for _, lr := range res.lines {
+		if lr.T == "ref" && lr.Extra != nil {
+			jb, _ := json.Marshal(lr.Extra)
+			return jb, ""
+		}
+	}
+	return nil, fmt.Sprintf("reference worker produced no table (exit %d): %s", res.exitCode, firstLines(res.stderr, 20))
+}
